@@ -8,6 +8,13 @@ from .encode import dec_r
 from .report import Run
 
 
+def by_id_tmp(traces, tid):
+    for t in traces:
+        if t["id"] == tid:
+            return t
+    return {"N": 10 ** 9}
+
+
 def decode_got(got, D):
     try:
         if isinstance(got, dict) and "m" in got:
@@ -36,7 +43,7 @@ def fail_summary(tr, v, limit=12):
 
 def analysis_check(pid, tier, seed, *, items, want, builders, N, variants=None, job_extra=None, timeout=120,
                    assumptions=None, extra_coverage=None, level="model_checking", max_confirm=12,
-                   post=None, key_fn=None):
+                   post=None, key_fn=None, N_ext=None):
     """variants: list of (suffix, settings dict); every item is analysed under every variant.
     post(run, ctxs) may add further violations / coverage (returns dict merged into coverage)."""
     run = Run(pid, level, tier, seed)
@@ -45,7 +52,7 @@ def analysis_check(pid, tier, seed, *, items, want, builders, N, variants=None, 
     results_by_variant = {}
     jobs_by_key = {}
     for suffix, settings in variants:
-        jobs = C.make_jobs(items, want, N, settings=settings, timeout=timeout, extra=job_extra)
+        jobs = C.make_jobs(items, want, max(N, N_ext or 0), settings=settings, timeout=timeout, extra=job_extra)
         for j in jobs:
             jobs_by_key[(j["id"], suffix)] = j
         results = pool.run_jobs(jobs)
@@ -61,6 +68,50 @@ def analysis_check(pid, tier, seed, *, items, want, builders, N, variants=None, 
         for tid, (it, pi) in meta.items():
             all_meta[tid] = (it, pi, suffix)
     verdicts, stats, errors = C.run_tlc(all_traces)
+    # ---- order-bound extension (DESIGN.md 6(A)): a trace whose reachable set closed describes a finite chain with
+    # m stores; Polar's formula past its K special cases satisfies a recurrence of order <= d (size of its system);
+    # agreement on n = 0..K+d+m decides agreement for all n.  Such traces are re-validated with that horizon.
+    decided_all_n = 0
+    if N_ext:
+        horizon = {}
+        for tid, v in verdicts.items():
+            it, pi, suffix = all_meta[tid]
+            if v["closedAt"] < 0 or v["fails"] or v["steps"] < by_id_tmp(all_traces, tid)["N"]:
+                continue
+            res = results_by_variant[suffix].get(it["id"], {})
+            dims = [len(go.get("recs", {}).get("monomials", [])) + 1 for go in (res.get("goals") or {}).values() if "recs" in go]
+            ks = [cf.count("n <= ") for cf in [go.get("closed_form", "") for go in (res.get("goals") or {}).values()]]
+            if not dims:
+                continue
+            # order of Polar's formula: generously twice the size of its recurrence system
+            need = max(ks + [0]) + 2 * max(dims) + v["reach"] + 1
+            if need <= N_ext:
+                horizon[(it["id"], pi, suffix)] = need
+        if horizon:
+            ext_traces = []
+            for suffix, _settings in variants:
+                hz = {(i, p): n for (i, p, sfx), n in horizon.items() if sfx == suffix}
+                if not hz:
+                    continue
+                its = [it for it in items if any(i == it["id"] for (i, p) in hz)]
+                tr, trmeta, _ = C.build(its, results_by_variant[suffix], N, builders, suffix=suffix, horizon=hz)
+                ext_traces += [t for t in tr if (trmeta[t["id"]][0]["id"], trmeta[t["id"]][1]) in hz]
+            ev, est, eerr = C.run_tlc(ext_traces)
+            stats["states"] += est["states"]
+            stats["distinct"] += est["distinct"]
+            stats["tlc_runs"] += est["tlc_runs"]
+            stats["tlc_wall_s"] += est["tlc_wall_s"]
+            for t in ext_traces:
+                v2 = ev.get(t["id"])
+                if v2 is None:
+                    continue
+                if v2["steps"] >= t["N"] and not v2["fails"]:
+                    decided_all_n += 1
+                # the longer trace replaces the shorter one (its failures are handled like any other)
+                verdicts[t["id"]] = v2
+                for k_, tr_old in enumerate(all_traces):
+                    if tr_old["id"] == t["id"]:
+                        all_traces[k_] = t
     by_id = {t["id"]: t for t in all_traces}
     items_by_id = {i["id"]: i for i in items}
 
@@ -146,6 +197,7 @@ def analysis_check(pid, tier, seed, *, items, want, builders, N, variants=None, 
         "traces_cut_by_support_cap": sum(1 for tid, v in verdicts.items() if v["steps"] < by_id[tid]["N"]),
         "traces_with_failures": nfail, "failing_analyses_confirmed_in_fresh_process": confirmed,
         "finite_chain_traces": sum(1 for v in verdicts.values() if v["closedAt"] >= 0),
+        "traces_decided_for_all_n_by_order_bound": decided_all_n,
         "notes": notes_all, "tlc_runs": stats["tlc_runs"], "tlc_wall_s": round(stats["tlc_wall_s"], 1),
         "exhaustive": False,
     }
@@ -159,6 +211,7 @@ def analysis_check(pid, tier, seed, *, items, want, builders, N, variants=None, 
         "TLC 1.8 and CommunityModules Json/FiniteSetsExt; spec/Exact.tla (self-tested against native arithmetic in setup)",
         "sympy evaluates Polar's closed forms at integer n and rational parameter points (utils.eval_re, as --at_n does)",
         "parameter values and symbolic initial values are sampled (2 points per program); n <= N",
+        "order-bound extension (where used): the general branch of a closed form is an exponential polynomial of order at most twice the size of Polar's recurrence system; the exact sequence of a chain with m reachable stores has order at most m",
     ]
     return run.finish(coverage, base_assumptions + (assumptions or []))
 
